@@ -229,6 +229,7 @@ fn c15_consumer_races_estimate() {
     policy.accept(BufferEvent::Full(vec![3, 4]));
     unsafe { G_SLOT = slot; }
     vs::set_hook(interfering_consumer, 1);
+    vs::set_hook_sites(1 << vs::S_LOCK_REL);      // one placement: while estimate() still holds the sketch's read lock
     let _e = policy.estimate(3);
     vs::clear_hook();
     let dequeued = vk_sender(&policy).len() == 0;
